@@ -27,3 +27,45 @@ def k7_multiline_config_value(meta, value, got):
     newline is altered by the configparser file format (continuation lines lose their leading
     white space; continuation lines starting with '#' or ';' are comments; empty lines)."""
     return meta == "file" and "\n" in value and got is not None and got != value and got == cfg_roundtrip(value)
+
+
+# ---------------------------------------------------------------------------
+# C11
+
+
+def c11_grid_known(shape, vt, start, end, got):
+    return None
+
+
+def _has_k1_text_match(cf):
+    from . import filterref
+
+    for pf in cf.get("props", []):
+        if pf.get("text_match") and pf["name"].upper() not in filterref.VTEXT_TYPED:
+            return True
+        if any(par.get("text_match") for par in pf.get("params", [])):
+            return True
+    return any(_has_k1_text_match(s) for s in cf.get("comps", []))
+
+
+def c11_gen_known(flt, raw, got, tz):
+    """K1: text-match on CATEGORIES, on values not typed TEXT by the library (X- properties,
+    ATTENDEE/ORGANIZER addresses) and on parameter values is whole-value (whole-category) equality
+    instead of a substring match.  Explains a disagreement iff the filter contains such a text-match
+    and the server's verdict equals the reference evaluated with exactly that substitution."""
+    from . import filterref
+
+    if not _has_k1_text_match(flt):
+        return None
+    filterref.SEMANTICS[0] = "k1"
+    try:
+        alt = filterref.calendar_matches(flt, raw, tz)
+    finally:
+        filterref.SEMANTICS[0] = "rfc"
+    if alt is not None and bool(alt) == bool(got):
+        return "K1"
+    return None
+
+
+def c11_gen_known_failure(flt, resp):
+    return None
